@@ -60,6 +60,14 @@ def world():
     class B:
         x: int = 0
 
+    @dataclass
+    class B1:
+        pass
+
+    @dataclass
+    class B2:
+        pass
+
     class W:
         def __init__(self, v): self.v = v
         def __eq__(self, o): return isinstance(o, W) and o.v == self.v
@@ -79,6 +87,9 @@ def world():
         "deser_B": lambda: deserialize(B, {"x": -3}),
         "ser_B": lambda: serialize(B, B(4)),
         "sschema_B": lambda: serialization_schema(B),
+        # two types that `typing` considers equal (one lru_cache key) with different first alternatives
+        "deser_Union[B1,B2]": lambda: deserialize(Union[B1, B2], {}),
+        "deser_Union[B2,B1]": lambda: deserialize(Union[B2, B1], {}),
     }
 
     def neg_validator(self):
@@ -171,6 +182,13 @@ def run(prop, seed, budget, ctx):
                                  "observation": oname, "cached": list(a), "cold_start": list(f), "k_ok": True,
                                  "why": ["stale-observation-after:cache.set_size;" + name]})
     cache_mod.set_size(128)
+    # mode 1c: observations whose cache keys are equal for `typing` (Union[A, B] == Union[B, A])
+    for first, second in (("deser_Union[B1,B2]", "deser_Union[B2,B1]"), ("deser_Union[B2,B1]", "deser_Union[B1,B2]")):
+        reset(); outcome(OBS[first]); evaluations += 1
+        a = outcome(OBS[second]); f = fresh(OBS[second])
+        if a != f:
+            failures.append({"kind": "P", "mode": "key-clash", "history": [first, second], "observation": second, "point": ["key", "typing-equality"],
+                             "cached": list(a), "cold_start": list(f), "k_ok": True, "why": ["stale-observation-after-an-observation-with-an-equal-key"]})
     # mode 2: random histories
     for h in range(20 * budget):
         reset(); since = []
@@ -203,6 +221,7 @@ def run(prop, seed, budget, ctx):
 
 # wiring point -> known finding
 POINT_KF = {
+    ("key", "typing-equality"): "KF13",
     ("nested", "apischema.validation.validators._validators"): "KF36",
     ("nested", "apischema.serialization.serialized_methods._serialized_methods"): "KF36",
     ("nested", "apischema.dependencies._dependent_requireds"): "KF36",
@@ -212,8 +231,10 @@ POINT_KF = {
 
 def is_known(kid, case):
     if case.get("kind") != "P": return False
-    if case.get("mode") == "targeted":
+    if case.get("mode") in ("targeted", "key-clash"):
         return POINT_KF.get(tuple(case["point"])) == kid
+    if case.get("mode") == "history" and kid == "KF13" and case.get("observation", "").startswith("deser_Union["):
+        return True
     # a random history is explained by a finding only if every non-resetting point it went through is a listed one
     pts = [tuple(p.split("/", 1)) for p in case.get("points", [])]
     unreset = [p for p in pts if p in POINT_KF]
